@@ -599,6 +599,45 @@ fn install_abort_handler(path: &std::path::Path) {
     }
 }
 
+/// Re-executes a violation's artefact in a fresh process of this executable (`--replay`): for
+/// failures that involve process-global state of the code under test (a static cache, a
+/// thread-local), which a second run in the same process cannot show again.
+pub fn reproduces_in_fresh_process(prop: &str, replay_text: &str) -> bool {
+    fresh_process_verdict(prop, replay_text).is_some()
+}
+
+/// Runs one artefact in a fresh process; Some(description) if that process reports the violation.
+pub fn fresh_process_verdict(prop: &str, replay_text: &str) -> Option<String> {
+    let exe = std::env::current_exe().ok()?;
+    let path = std::env::temp_dir().join(format!("verif-fresh-{}-{}.txt", std::process::id(), hash_of(&replay_text)));
+    std::fs::write(&path, format!("---\n{}\n", replay_text)).ok()?;
+    let out = std::process::Command::new(exe).args(["--prop", prop, "--replay"]).arg(&path).stderr(std::process::Stdio::null()).output();
+    let _ = std::fs::remove_file(&path);
+    let out = out.ok()?;
+    if out.status.code() != Some(1) {
+        return None;
+    }
+    let text = String::from_utf8_lossy(&out.stdout);
+    Some(text.lines().find_map(|l| l.strip_prefix("REPLAY reproduces the violation: ")).unwrap_or("violation").to_string())
+}
+
+#[allow(dead_code)]
+fn reproduces_in_fresh_process_old(prop: &str, replay_text: &str) -> bool {
+    let Ok(exe) = std::env::current_exe() else { return false };
+    let path = std::env::temp_dir().join(format!("verif-fresh-replay-{}-{}.txt", std::process::id(), hash_of(&replay_text)));
+    if std::fs::write(&path, format!("---\n{}\n", replay_text)).is_err() {
+        return false;
+    }
+    let status = std::process::Command::new(exe)
+        .args(["--prop", prop, "--replay"])
+        .arg(&path)
+        .stdout(std::process::Stdio::null())
+        .stderr(std::process::Stdio::null())
+        .status();
+    let _ = std::fs::remove_file(&path);
+    matches!(status.map(|s| s.code()), Ok(Some(1)))
+}
+
 // ---------------------------------------------------------------------------
 // known findings
 
